@@ -151,10 +151,10 @@ pub mod sync {
     pub struct Poisoned;
 
     ///
-    /// Error returned by `try_lock`
+    /// Error returned by `try_lock` (same variant names as `std::sync::TryLockError`)
     ///
     #[derive(Debug)]
-    pub enum TryLockFailed { Poisoned, WouldBlock }
+    pub enum TryLockError { Poisoned(Poisoned), WouldBlock }
 
     ///
     /// A `std::sync::Mutex` that reports its lock/unlock points
@@ -189,7 +189,7 @@ pub mod sync {
         }
 
         #[track_caller]
-        pub fn try_lock(&self) -> Result<MutexGuard<'_, T>, TryLockFailed> {
+        pub fn try_lock(&self) -> Result<MutexGuard<'_, T>, TryLockError> {
             let location = Location::caller();
 
             point(PointKind::BeforeLock, location);
@@ -201,12 +201,12 @@ pub mod sync {
 
                 Err(std::sync::TryLockError::WouldBlock) => {
                     point(PointKind::TryLockFailed, location);
-                    Err(TryLockFailed::WouldBlock)
+                    Err(TryLockError::WouldBlock)
                 }
 
                 Err(std::sync::TryLockError::Poisoned(_)) => {
                     point(PointKind::TryLockFailed, location);
-                    Err(TryLockFailed::Poisoned)
+                    Err(TryLockError::Poisoned(Poisoned))
                 }
             }
         }
